@@ -10,8 +10,8 @@ for n in $names; do
   tests=$(echo "$out" | grep -E "passed|failed" | head -1)
   dm=$(echo "$out" | grep "demo on mutated" | sed 's/.*exit //'); dc=$(echo "$out" | grep "demo on /repo" | sed 's/.*exit //')
   echo "$out" | grep "^check " | while read -r line; do
-    id=$(echo $line | awk '{print $2}'); rc=$(echo $line | awk '{print $5}'); kind=$(echo "$line" | grep -oE "kind=[a-z0-9-]+" | head -1)
-    printf "%s\t%s\t%s\tdemo_mut=%s\tdemo_head=%s\texit=%s\t%s\n" "$n" "$id" "$tests" "$dm" "$dc" "$rc" "$kind" | tee -a ${OUT:-seeded/RESULTS.tsv}
+    id=$(echo $line | awk '{print $2}'); rc=$(echo $line | awk '{print $5}'); kind=$(echo "$line" | grep -oE "kind=[a-z0-9-]+" | head -1); ri=$(echo "$line" | grep -oE "run_index=[0-9]+" | head -1)
+    printf "%s\t%s\t%s\tdemo_mut=%s\tdemo_head=%s\texit=%s\t%s\t%s\n" "$n" "$id" "$tests" "$dm" "$dc" "$rc" "$kind" "$ri" | tee -a ${OUT:-seeded/RESULTS.tsv}
   done
   echo "$out" | grep -q "PATCH-DOES-NOT-APPLY" && printf "%s\tPATCH-DOES-NOT-APPLY\n" "$n" | tee -a ${OUT:-seeded/RESULTS.tsv}
 done
